@@ -9,8 +9,9 @@ seed.py run <seed id> <Cxx> [<Cxx> ...]
 """
 import json, os, re, shutil, subprocess, sys, time
 SEEDED = "/verif/seeded"
-SCR = "/tmp/seedcheck"
-ENV = dict(os.environ, CARGO_NET_OFFLINE="true", CARGO_TARGET_DIR="/tmp/seedcheck-target")
+SLOT = os.environ.get("SEED_SLOT", "")   # parallel confirmations use separate scratch worktrees and target directories
+SCR = "/tmp/seedcheck" + SLOT
+ENV = dict(os.environ, CARGO_NET_OFFLINE="true", CARGO_TARGET_DIR="/tmp/seedcheck-target" + SLOT)
 
 def sh(cmd, cwd, timeout=3600, env=None):
     p = subprocess.run(cmd, cwd=cwd, shell=True, stdout=subprocess.PIPE, stderr=subprocess.STDOUT, text=True, timeout=timeout, env=env or ENV)
@@ -34,7 +35,7 @@ def confirm(src, sid, prop, crate):
         os.makedirs(os.path.dirname(demo_dst), exist_ok=True)
         shutil.copy(f"{src}/demo.rs", demo_dst)
         feat = "--features sync,async-tokio" if crate == "simple-mdns" else ""
-        denv = dict(ENV, RUSTFLAGS="--cfg simple_dns_verif", CARGO_TARGET_DIR="/tmp/seedcheck-target-cfg") if crate == "simple-mdns" else ENV
+        denv = dict(ENV, RUSTFLAGS="--cfg simple_dns_verif", CARGO_TARGET_DIR="/tmp/seedcheck-target-cfg" + SLOT) if crate == "simple-mdns" else ENV
         rc1, out1 = sh(f"cargo test -p {crate} {feat} --test demo_seeded --offline 2>&1 | tail -30", SCR, env=denv)
         p1, f1 = passed(out1)
         meta["demo_with_change"] = {"passed": p1, "failed": f1, "tail": out1[-600:]}
